@@ -10,7 +10,11 @@ MISSED=0
 for d in /verif/seeded/*/; do
   name=$(basename $d)
   checks=$(python3 -c "import json;print(' '.join(json.load(open('$d/meta.json'))['detected_by']))")
-  git -C /repo apply $d/patch.diff || { echo "$name: patch does not apply"; continue; }
+  # (patch.diff is what the sub-agent produced; patch_current.diff is the same change re-based by
+  # hand where later repairs changed the surrounding lines)
+  P=$d/patch.diff; [ -f $d/patch_current.diff ] && P=$d/patch_current.diff
+  [ -n "$ONLY" ] && [[ " $ONLY " != *" $name "* ]] && continue
+  git -C /repo apply $P || { echo "$name: patch does not apply"; continue; }
   for id in $checks; do
     out=$(cd /verif && ./check $id ${TIER:-quick} 2>&1); rc=$?
     rp=$(echo "$out" | grep -oE "replay=\S+" | head -1 | cut -d= -f2)
